@@ -49,7 +49,16 @@ type typeEntry struct {
 	HeaderWith func(*binding.Binder, http.Header) (any, error)
 	CookieWith func(*binding.Binder, []*http.Cookie) (any, error)
 	BindWith   func(*binding.Binder, ...binding.Option) (any, error)
-	Ty         string
+	// body entry points (body-shaped types only)
+	JSON           func([]byte, ...binding.Option) (any, error)
+	JSONReader     func(io.Reader, ...binding.Option) (any, error)
+	XML            func([]byte, ...binding.Option) (any, error)
+	XMLReader      func(io.Reader, ...binding.Option) (any, error)
+	JSONWith       func(*binding.Binder, []byte) (any, error)
+	JSONReaderWith func(*binding.Binder, io.Reader) (any, error)
+	XMLWith        func(*binding.Binder, []byte) (any, error)
+	XMLReaderWith  func(*binding.Binder, io.Reader) (any, error)
+	Ty             string
 }
 
 var tagNames = []string{"query", "path", "form", "header", "cookie"}
@@ -267,11 +276,12 @@ func walkShape(sh *shape, fs []fieldNode, tag int, pre string, nested bool, dept
 // ---------------------------------------------------------------- corpus bookkeeping
 
 type corpusType struct {
-	E      *typeEntry
-	Node   *tyNode
-	Shapes [5]*shape
-	Dflts  []string
-	Opq    []int // opaque leaf kinds that occur in the type
+	E       *typeEntry
+	Node    *tyNode
+	Shapes  [5]*shape
+	Dflts   []string
+	Opq     []int // opaque leaf kinds that occur in the type
+	HasTime bool
 }
 
 var types []*corpusType
@@ -340,10 +350,13 @@ func loadCorpus() {
 		for _, lf := range ct.Shapes[0].Leaves {
 			if lf.Prim == "t" {
 				timeTypes = append(timeTypes, ct)
+				ct.HasTime = true
 				break
 			}
 		}
 		switch {
+		case i >= 600:
+			bodyTypes = append(bodyTypes, ct)
 		case i >= 540:
 			opqCorpus = append(opqCorpus, ct)
 		case i >= 480:
@@ -390,21 +403,27 @@ func (o optsT) over(c *optsT) optsT {
 }
 
 type caseT struct {
-	T       string // type name
-	Tag     int    // 0 query 1 path 2 form 3 header 4 cookie
-	Entry   string // G generic, T …To
-	Opts    optsT
-	Prefill uint64      // 0 = zero destination; otherwise the seed of the pre-fill walk (entry T only)
-	Src     [][2]string // key/value pairs in insertion order (cookie: raw cookie value)
-	Srcs    []srcCase   // entry B: the sources of a Bind / BindTo call, in order
-	Gen     bool        // entry B: the generic Bind[T] instead of BindTo
-	Via     string      // entry A: only (BindOnly), bind (Bind), must (MustBind)
-	Binder  bool        // through a reusable Binder built with Opts (QueryWith/…To methods/BindWith/Binder.BindTo)
-	Call    *optsT      // entries B through a Binder: per-call options on top of the Binder's
-	Warm    [][2]string // an earlier, different request bound the same way (same type, entry point, options) whose
-	WarmS   []srcCase   // result is then written through (pointers, slices, maps): binds must not share state
-	HasWarm bool
-	NT      bool // carries a boundary / out-of-range / malformed value (for the non-triviality rule)
+	T             string // type name
+	Tag           int    // 0 query 1 path 2 form 3 header 4 cookie
+	Entry         string // G generic, T …To
+	Opts          optsT
+	Prefill       uint64      // 0 = zero destination; otherwise the seed of the pre-fill walk (entry T only)
+	Src           [][2]string // key/value pairs in insertion order (cookie: raw cookie value)
+	Srcs          []srcCase   // entry B: the sources of a Bind / BindTo call, in order
+	Gen           bool        // entry B: the generic Bind[T] instead of BindTo
+	Via           string      // entry A: only (BindOnly), bind (Bind), must (MustBind)
+	Binder        bool        // through a reusable Binder built with Opts (QueryWith/…To methods/BindWith/Binder.BindTo)
+	Call          *optsT      // entries B through a Binder: per-call options on top of the Binder's
+	Warm          [][2]string // an earlier, different request bound the same way (same type, entry point, options) whose
+	WarmS         []srcCase   // result is then written through (pointers, slices, maps): binds must not share state
+	HasWarm       bool
+	NT            bool      // carries a boundary / out-of-range / malformed value (for the non-triviality rule)
+	Convs         []int     `json:",omitempty"` // converters registered with the options of the call / of the Binder (convs.go)
+	CallConvs     []int     `json:",omitempty"` // entry B through a Binder: converters registered per call
+	WarmCallConvs []int     `json:",omitempty"` // the per-call converters of the earlier request
+	HasWarmCall   bool      `json:",omitempty"`
+	Body          *bodyCase `json:",omitempty"` // entry J (body.go)
+	HTTP          *httpCase `json:",omitempty"` // entry H (body.go)
 }
 
 type srcCase struct {
@@ -467,6 +486,9 @@ var ambiguousLayouts bool
 // malformed for the kind; otherwise representable (typical values and the exact boundaries). The
 // second result says whether the value is a boundary, out-of-range or malformed one.
 func genValue(r *hx.Rand, prim string, bad bool) (string, bool) {
+	if vs, ok := convFriendly[prim]; ok && convHint && r.Chance(1, 2) {
+		return hx.Pick(r, vs), true
+	}
 	k := r.Intn(100)
 	switch prim[0] {
 	case 'i', 'u':
@@ -551,6 +573,9 @@ func genOpts(r *hx.Rand) optsT {
 }
 
 func genCase(r *hx.Rand) caseT {
+	if len(bodyTypes) > 0 && r.Chance(1, 6) {
+		return genBodyCase(r)
+	}
 	ct := hx.Pick(r, types)
 	if len(namedTypes) > 0 && r.Chance(1, 8) {
 		ct = hx.Pick(r, namedTypes)
@@ -594,7 +619,39 @@ func genCase(r *hx.Rand) caseT {
 			c.Call = &call
 		}
 	}
+	if (ct.HasTime || len(ct.Opq) > 0) && r.Chance(1, 3) {
+		// custom converters for leaf types of this type: with the options of the call or of the Binder; per
+		// call on top of a Binder's (another converter for the same type, or for another type); the earlier
+		// request of a sequence may have registered different ones per call
+		c.Convs = convsFor(r, ct)
+		if r.Chance(1, 2) {
+			// through a Binder's BindTo / BindWith, where per-call options exist
+			c.Entry, c.Binder = "B", true
+		}
+		if c.Binder && c.Entry == "B" {
+			if r.Chance(1, 2) {
+				c.CallConvs = convsFor(r, ct)
+			}
+			if r.Chance(1, 3) {
+				c.Convs = nil
+			}
+			if r.Chance(2, 3) {
+				c.HasWarmCall = true
+				forceWarm = true
+				if r.Chance(2, 3) {
+					c.WarmCallConvs = convsFor(r, ct)
+					if r.Chance(1, 2) {
+						c.WarmCallConvs = []int{r.Intn(len(convDefs))} // a converter for a type that may not even occur
+					}
+				}
+			}
+		}
+	}
+	convHint = len(c.Convs)+len(c.CallConvs) > 0
+	defer func() { convHint = false }()
 	if c.Entry == "B" && r.Chance(1, 4) {
+		c.Convs, c.CallConvs, c.WarmCallConvs, c.HasWarmCall = nil, nil, nil, false
+		convHint = false
 		// app.Context.BindOnly: path, query, header, cookie of one request, in that order
 		c.Entry = "A"
 		c.Binder, c.Call = false, nil
@@ -1123,7 +1180,22 @@ func refParseTime(s string, custom []string) (string, bool) {
 	return "", false
 }
 
-func tableEntry(l *hx.Line, s string, extra *[]string, layouts []string, opq []int) {
+func tableEntry(l *hx.Line, s string, extra *[]string, layouts []string, opq []int, convs []int) {
+	defer func() {
+		// registered converters: converter, rendering of its result (absent: it returns an error)
+		var ks []int
+		var rs []string
+		for _, id := range convs {
+			if x, ok := convRender(id, s); ok {
+				ks = append(ks, id)
+				rs = append(rs, x)
+			}
+		}
+		l.Nat(len(ks))
+		for i, k := range ks {
+			l.Nat(k).Str(rs[i])
+		}
+	}()
 	defer func() {
 		// opaque kinds that occur in the type: kind, rendering of the parsed value (absent: the parse fails)
 		var ks []int
@@ -1224,7 +1296,7 @@ func run(ct *corpusType, c *caseT, s *srcT, dest any) (res any, err error, panic
 			panicked = true
 		}
 	}()
-	o := c.Opts.options()
+	o := append(c.Opts.options(), convOptions(c.Convs)...)
 	if c.Binder {
 		return runBinder(ct, c, s, dest)
 	}
@@ -1337,12 +1409,12 @@ func runApp(c *caseT, dest any, again func() any) (srcs []*srcT, tags []int, err
 // binders are reusable: one per option set for the whole run (as an application would keep them)
 var binders = map[string]*binding.Binder{}
 
-func binderFor(o optsT) *binding.Binder {
-	k := fmt.Sprintf("%+v", o)
+func binderFor(o optsT, convs []int) *binding.Binder {
+	k := fmt.Sprintf("%+v %v", o, convs)
 	if b, ok := binders[k]; ok {
 		return b
 	}
-	b, err := binding.New(o.options()...)
+	b, err := binding.New(append(o.options(), convOptions(convs)...)...)
 	if err != nil {
 		panic(err)
 	}
@@ -1373,13 +1445,14 @@ func fromOptions(c *caseT) []binding.Option {
 // runBinder: the same binds through a Binder object — QueryWith[T] … / Binder.QueryTo … for one source,
 // BindWith[T] / Binder.BindTo (config cloned per call, per-call options on top) for several.
 func runBinder(ct *corpusType, c *caseT, s *srcT, dest any) (res any, err error, panicked bool) {
-	b := binderFor(c.Opts)
+	b := binderFor(c.Opts, c.Convs)
 	switch c.Entry {
 	case "B":
 		from := fromOptions(c)
 		if c.Call != nil {
 			from = append(from, c.Call.options()...)
 		}
+		from = append(from, convOptions(c.CallConvs)...)
 		if c.Gen {
 			res, err = ct.E.BindWith(b, from...)
 			return
@@ -1417,6 +1490,9 @@ func runBinder(ct *corpusType, c *caseT, s *srcT, dest any) (res any, err error,
 }
 
 func emit(id string, c caseT, st *hx.Stats) string {
+	if c.Entry == "J" || c.Entry == "H" {
+		return emitBody(id, c, st)
+	}
 	ct := typeByName[c.T]
 	if ct == nil {
 		return "# unknown type " + c.T
@@ -1462,6 +1538,16 @@ func emit(id string, c caseT, st *hx.Stats) string {
 	eff := c.Opts.over(c.Call) // what the bind runs with: the Binder's / call's options, per-call ones on top
 	md, ms, mm := eff.effective()
 	l := hx.NewLine(id).Tok(c.Entry).Nat(c.Tag).Nat(md).Nat(ms).Nat(mm).Bool(eff.CSV).Bool(eff.BaseAuto)
+	ec := effConvs(c.Convs)
+	if c.Binder && c.Entry == "B" {
+		ec = effConvs(c.Convs, c.CallConvs)
+	}
+	l.Nat(len(ec))
+	var convIDs []int
+	for _, e := range ec {
+		l.Nat(e[0]).Nat(e[1])
+		convIDs = append(convIDs, e[1])
+	}
 	ct.Node.tokens(l)
 	l.Tok(strings.TrimSpace(il.String()))
 	// source(s) as the model sees them
@@ -1501,7 +1587,7 @@ func emit(id string, c caseT, st *hx.Stats) string {
 	n := 0
 	for i := 0; i < len(strs); i++ {
 		var extra []string
-		tableEntry(tl, strs[i], &extra, eff.Layouts, ct.Opq)
+		tableEntry(tl, strs[i], &extra, eff.Layouts, ct.Opq, convIDs)
 		n++
 		for _, e := range extra {
 			note(e)
@@ -1515,6 +1601,9 @@ func emit(id string, c caseT, st *hx.Stats) string {
 			defer func() { _ = recover() }()
 			w := c
 			w.Src, w.Srcs, w.Prefill = c.Warm, c.WarmS, 0
+			if c.HasWarmCall {
+				w.CallConvs = c.WarmCallConvs
+			}
 			ws := &srcT{}
 			if w.Entry != "B" {
 				ws = buildSrc(w.Tag, w.Src)
@@ -1766,12 +1855,23 @@ func fixedCases() []caseT {
 				}
 			}
 			if !seqT && lf.Kind == "prim" && lf.Prim == "t" && !lf.Nested {
+				// a Binder's per-call converter for time.Time, after a call that registered one for another type
+				out = append(out, caseT{T: ct.E.Name, Tag: 0, Entry: "B", Binder: true, Opts: optsT{-1, -1, -1, false, false, nil}, NT: true,
+					CallConvs: []int{0}, HasWarmCall: true, WarmCallConvs: []int{2}, HasWarm: true,
+					WarmS: []srcCase{{Tag: 0, KV: [][2]string{{lf.Keys[0], "2024-01-15"}}}},
+					Srcs:  []srcCase{{Tag: 0, KV: [][2]string{{lf.Keys[0], "25/12/2024"}}}}})
+				// … and the other way round: no converter in this call, one in the earlier call
+				out = append(out, caseT{T: ct.E.Name, Tag: 0, Entry: "B", Binder: true, Opts: optsT{-1, -1, 7, false, false, nil}, NT: true,
+					HasWarmCall: true, WarmCallConvs: []int{1}, HasWarm: true,
+					WarmS: []srcCase{{Tag: 0, KV: [][2]string{{lf.Keys[0], "03/04/2024"}}}},
+					Srcs:  []srcCase{{Tag: 0, KV: [][2]string{{lf.Keys[0], "2024-01-15"}}}}})
 				seqT = true
 				out = append(out, caseT{T: ct.E.Name, Tag: 0, Entry: "G", Opts: optsT{-1, -1, -1, false, false, []string{"01/02/2006", "02/01/2006"}},
 					HasWarm: true, Warm: [][2]string{{lf.Keys[0], "25/12/2024"}}, Src: [][2]string{{lf.Keys[0], "03/04/2024"}}, NT: true})
 			}
 		}
 	}
+	out = append(out, fixedBodyCases()...)
 	// K04e: pointer to slice with a value; K04g: an empty map field under WithMaxMapSize(3);
 	// K04f: a map field of a nested struct addressed with dot notation
 	var e, g, f bool
